@@ -84,6 +84,7 @@ def __linear_2d_1o_3(state: np.ndarray, _: float,
     d2: float = ((s0 - params[4]) ** 2.0) + ((s1 - params[5]) ** 2.0)
     if d2 < d:
         o = (s0 * params[6]) + (s1 * params[7])
+        d = d2
 
     d2 = ((s0 - params[8]) ** 2.0) + ((s1 - params[9]) ** 2.0)
     if d2 < d:
@@ -114,6 +115,7 @@ def __linear_3d_1o_3(state: np.ndarray, _: float,
                  + ((s2 - params[8]) ** 2.0))
     if d2 < d:
         o = (s0 * params[9]) + (s1 * params[10]) + (s2 * params[11])
+        d = d2
 
     d2 = (((s0 - params[12]) ** 2.0) + ((s1 - params[13]) ** 2.0)
           + ((s2 - params[14]) ** 2.0))
@@ -142,10 +144,12 @@ def __linear_2d_1o_4(state: np.ndarray, _: float,
     d2: float = ((s0 - params[4]) ** 2.0) + ((s1 - params[5]) ** 2.0)
     if d2 < d:
         o = (s0 * params[6]) + (s1 * params[7])
+        d = d2
 
     d2 = ((s0 - params[8]) ** 2.0) + ((s1 - params[9]) ** 2.0)
     if d2 < d:
         o = (s0 * params[10]) + (s1 * params[11])
+        d = d2
 
     d2 = ((s0 - params[12]) ** 2.0) + ((s1 - params[13]) ** 2.0)
     if d2 < d:
@@ -176,11 +180,13 @@ def __linear_3d_1o_4(state: np.ndarray, _: float,
                  + ((s2 - params[8]) ** 2.0))
     if d2 < d:
         o = (s0 * params[9]) + (s1 * params[10]) + (s2 * params[11])
+        d = d2
 
     d2 = (((s0 - params[12]) ** 2.0) + ((s1 - params[13]) ** 2.0)
           + ((s2 - params[14]) ** 2.0))
     if d2 < d:
         o = (s0 * params[15]) + (s1 * params[16]) + (s2 * params[17])
+        d = d2
 
     d2 = (((s0 - params[18]) ** 2.0) + ((s1 - params[19]) ** 2.0)
           + ((s2 - params[20]) ** 2.0))
